@@ -360,7 +360,7 @@ func c12Check(x *fleetExec, e engine.Event, nd *knode) {
 	}
 	if wantVisits > 0 {
 		x.st.Oracle("foreach-stop")
-		k := int(e.I) % wantVisits
+		k := (x.at*7 + int(e.I)) % wantVisits
 		calls := 0
 		stopped := false
 		x.lib("ForEach", sig, func() {
